@@ -119,6 +119,7 @@ func (c *Ctx) note(f string, a ...interface{}) {
 }
 
 func (f *Frame) havocCall(key string, rt types.Type, st *State) Val {
+	f.frameCheck("*", "", token.NoPos, "call "+key)
 	f.applyHavoc(st, nil, true, f.curGuard)
 	return f.freshVal("res$"+mangle(key), rt, st, f.curGuard)
 }
@@ -258,7 +259,9 @@ func (f *Frame) applyContract(ct *Contract, fn *ssa.Function, sig *types.Signatu
 	f.callOrd[ct.Key] = ord + 1
 	short := strings.TrimPrefix(ct.Key, c.W.ModPath+"/go/")
 	for j, r := range ct.Requires {
+		env.goal = true
 		t, err := env.boolTerm(r.E)
+		env.goal = false
 		if err != nil {
 			c.unsupported("requires of %s: %v", ct.Key, err)
 			continue
@@ -287,8 +290,15 @@ func (f *Frame) applyContract(ct *Contract, fn *ssa.Function, sig *types.Signatu
 			}
 			targets = append(targets, ts...)
 		}
+		if all {
+			f.frameCheck("*", "", pos, "call "+short)
+		}
+		for _, t := range targets {
+			f.frameCheck(t.heap, t.key, pos, "call "+short)
+		}
 		f.applyHavoc(st, targets, all, f.curGuard)
 	} else {
+		f.frameCheck("*", "", pos, "call "+short)
 		f.applyHavoc(st, nil, true, f.curGuard)
 	}
 	if !ct.Pure {
@@ -610,6 +620,7 @@ func (f *Frame) builtin(b *ssa.Builtin, cc *ssa.CallCommon, rt types.Type, st *S
 		m := args[0]
 		mt := m.Typ.Underlying().(*types.Map)
 		d, _ := c.mapHeaps(mt)
+		f.frameCheck(d, m.T, pos, "delete")
 		dh := c.heapGet(st, d, c.heapSort[d])
 		c.heapSet(st, d, "(store "+dh+" "+m.T+" (store (select "+dh+" "+m.T+") "+args[1].T+" false))")
 		return Val{Typ: rt}
@@ -748,6 +759,13 @@ func (f *Frame) doAppend(cc *ssa.CallCommon, args []Val, rt types.Type, st *Stat
 		c.assume(f.curGuard, fmt.Sprintf("(forall ((i!q %s)) (! (=> %s (= (select %s i!q) (ite %s (select %s %s) %s))) :pattern ((select %s i!q))))", idx, and(c.ile(c.idxLit(0), "i!q"), c.ilt("i!q", newLen)), q(ra), c.ilt("i!q", sLen), oldArr, c.iadd(sOff, "i!q"), srcAt(c.isub("i!q", sLen)), q(ra)))
 		realloc = q(ra)
 	}
+	if c.frameOn && !c.frameWhole[h] && c.suppress == 0 {
+		alts := []string{not(fits), "(>= " + sBase + " " + c.heap0[allocHeap] + ")"}
+		for _, a := range c.frameAllowed[h] {
+			alts = append(alts, eq(sBase, a))
+		}
+		f.oblige("frame", f.srcKey(pos, "append")+" "+h, or(alts...), pos, "in-place append outside the assigns clause")
+	}
 	c.heapSet(st, h, ite(fits, "(store "+mem+" "+sBase+" "+inplace+")", "(store "+mem+" "+newBase+" "+realloc+")"))
 	res := ite(fits, c.mkSlice(sBase, sOff, newLen, sCap), c.mkSlice(newBase, c.idxLit(0), newLen, q(newCap)))
 	return Val{T: res, Typ: rt}
@@ -785,6 +803,7 @@ func (f *Frame) doCopy(args []Val, rt types.Type, st *State, pos token.Pos) Val 
 	c.declConst(na, arrSort)
 	inRange := and(c.ile(dOff, "i!q"), c.ilt("i!q", c.iadd(dOff, n)))
 	c.assume(f.curGuard, fmt.Sprintf("(forall ((i!q %s)) (! (= (select %s i!q) (ite %s %s (select %s i!q))) :pattern ((select %s i!q))))", idx, q(na), inRange, srcAt(c.isub("i!q", dOff)), oldArr, q(na)))
+	f.frameCheck(h, "(sl.base "+d.T+")", pos, "copy")
 	c.heapSet(st, h, "(store "+mem+" (sl.base "+d.T+") "+q(na)+")")
 	if c.Mode == ModeBV {
 		return Val{T: n, Typ: rt}
